@@ -236,7 +236,8 @@ void sharp_case(vt::Rng& rng, int64_t icase)
     // x0 within distance 4 of x*
     auto       dir = vt::random_x0(rng, n, 1.0);
     const auto nrm = std::max(1e-6, dir.lpNorm<2>());
-    const auto     dist0 = rng.coin(1, 10) ? rng.pick(std::vector<double>{0.0, 4.0}) : rng.uniform(0.01, 4.0);
+    // x0 within distance 4 of x*: anywhere, also warm starts very close to the minimiser
+    const auto     dist0 = rng.coin(1, 10) ? rng.pick(std::vector<double>{0.0, 4.0}) : rng.coin(1, 4) ? std::pow(10.0, rng.uniform(-7.0, -2.0)) : rng.uniform(0.01, 4.0);
     const vector_t x0    = xstar.vector() + dir.vector() * (dist0 / nrm);
 
     auto       solver = solver_t::all().get(id);
@@ -295,7 +296,34 @@ void sharp_case(vt::Rng& rng, int64_t icase)
         nG += e.grad ? 1 : 0;
     }
     vt::put(vt::J("Sharp").i("case", icase).s("solver", id).i("n", n).s("status", status).b("gapOK", gap <= bound).b("mustConverge", id == "ellipsoid" && n <= 6).i(
-        "evals", nF + nG).b("linf", linf));
+        "evals", nF + nG).b("linf", linf).i("eps_e12", static_cast<int64_t>(std::llround(eps * 1e12))).i(
+        "dist_e6", static_cast<int64_t>(std::llround(dist0 * 1e6))));
+}
+
+// the recorded finding (known_findings.json, C03): with epsilon <= 5e-8 and a start very close to the minimiser the ellipsoid method
+// can report `converged` with a gap above 10 epsilon (its matrix degenerates numerically); one fixed instance, run in every check
+void known_ellipsoid_case(int64_t icase)
+{
+    const tensor_size_t n = 3;
+    matrix_t            A = matrix_t::identity(n, n);
+    vector_t            xstar(n), x0(n);
+    xstar(0) = 0x1.a3871a73c634cp+0;
+    xstar(1) = -0x1.0e1ba95985fb2p+0;
+    xstar(2) = -0x1.74d6e30b4ac02p+0;
+    x0(0)    = 0x1.a3875928f637fp+0;
+    x0(1)    = -0x1.0e1be88259fap+0;
+    x0(2)    = -0x1.74d771433d138p+0;
+    sharp_t    function(A, xstar, false, 0.0);
+    const auto eps    = 1e-8;
+    auto       solver = solver_t::all().get("ellipsoid");
+    solver->parameter("solver::epsilon")   = eps;
+    solver->parameter("solver::max_evals") = 20000;
+    vt::counting_function_t counting(function);
+    const auto              state  = solver->minimize(counting, x0, make_null_logger());
+    const auto              status = state.status() == solver_status::converged ? "converged" : state.status() == solver_status::failed ? "failed" : "max_iters";
+    const auto              gap    = function.vgrad(state.x());
+    vt::put(vt::J("Sharp").i("case", icase).s("solver", "ellipsoid").i("n", n).s("status", status).b("gapOK", gap <= 10.0 * eps).b("mustConverge", true).i(
+        "evals", static_cast<int64_t>(counting.evals().size())).b("linf", false).i("eps_e12", 10000).i("dist_e6", static_cast<int64_t>(std::llround((x0 - xstar).lpNorm<2>() * 1e6))));
 }
 } // namespace
 
@@ -317,6 +345,7 @@ int main(int argc, char* argv[])
     {
         sharp_case(rng, nb + i);
     }
+    known_ellipsoid_case(-2);
     vt::put(vt::J("Sharp").i("case", -1).s("solver", "end").i("n", 0).s("status", "max_iters").b("gapOK", true).b("mustConverge", false).i("evals", 0).b(
         "linf", false));
     return 0;
